@@ -14,7 +14,7 @@ def rt_profile(**over):
                 p_annotations=0.3, p_custom_ann=0.2, max_omitted=0,
                 p_tag_named_like_member_field=0.25, p_marker_chain=0.15,
                 p_ts_offset_format=0.25, p_alias_of_alias=0.25, p_odd_alias_name=0.2,
-                p_twin_subtype_trees=0.3, p_alias_of_container_of_alias=0.15)
+                p_twin_subtype_trees=0.3, p_alias_of_container_of_alias=0.15, p_sibling_same_tag=0.5)
     base.update(over)
     return gm.make_profile(**base)
 
